@@ -339,7 +339,7 @@ func generate(r *hxlib.Run, emit func(hxlib.Case)) {
 		g.hostile = true
 		return []string{"put " + hx("../root-other/evil"), "get " + hx("../root-other/secret"), "del " + hx("../root-other/secret"),
 			"qry " + hx("../root-other"), "qry " + hx("../root-other/"), "put " + hx("."), "del " + hx("d/../.."), "put " + hx("../rootx"), "qry " + hx("../rootx/q"),
-			"get " + hx("a"), "qry -", "put " + hx("n/m"), "del " + hx("a")}
+			"get " + hx("a"), "gmt " + hx("d/b"), "gmt " + hx("../root-other/secret"), "gmt " + hx("nope"), "qry -", "put " + hx("n/m"), "del " + hx("a")}
 	})
 	emitCase(r, emit, "ds", "w/a/root", "plain", "", false, "corpus", func(g *gctx) []string {
 		g.hostile = true
@@ -353,6 +353,12 @@ func generate(r *hxlib.Run, emit func(hxlib.Case)) {
 			"scan -", "scan " + hx(g.vroot+"/all"), "scan " + hx("a/root/all/sub"),
 			"unz " + hxList([]string{"ok.txt", "../../../root-other/evil"}), "unz " + hxList([]string{"../../../../note.txt"}),
 			"unz " + hxList([]string{"d/", "d/f", "../x"}), "unz " + hxList([]string{"d/", "d/f", "g"}), "unz " + hxList([]string{"/abs"})}
+	})
+
+	emitCase(r, emit, "upd", "w/a/root", "nested", "w", false, "corpus", func(g *gctx) []string {
+		g.hostile = true
+		return []string{"scan " + hx(g.vroot+"-other"), "scan " + hx(g.vroot+"/../other"), "scan " + hx(SB+"/w/a"), "scan " + hx(SB+"/w/a/missing"), "scan " + hx("a/root-old"),
+			"scan -", "scan " + hx(g.vroot+"/all"), "unz " + hxList([]string{"ok.txt", "../../../root-other/evil"}), "unz " + hxList([]string{"d/", "d/f", "g"})}
 	})
 
 	// the database directory removed / replaced by a file / changed while the storage is open, prefixes resolving to the root
@@ -389,6 +395,9 @@ func generate(r *hxlib.Run, emit func(hxlib.Case)) {
 		if comp == "ds" {
 			variant = []string{"plain", "plain", "slash", "noexist"}[rng.Intn(4)]
 		}
+		if comp == "upd" && rng.Intn(3) == 0 {
+			variant = "nested"
+		}
 		cwd := pick(rng, cwdChoices(rootRel))
 		emitCase(r, emit, comp, rootRel, variant, cwd, false, comp, func(g *gctx) []string {
 			var ops []string
@@ -399,11 +408,11 @@ func generate(r *hxlib.Run, emit func(hxlib.Case)) {
 			for i := 0; i < n; i++ {
 				switch comp {
 				case "fst":
-					op := []string{"put", "get", "del", "qry", "get", "put"}[rng.Intn(6)]
+					op := []string{"put", "get", "del", "qry", "get", "put", "qry", "gmt"}[rng.Intn(8)]
 					name, cls := g.relName()
 					if rng.Intn(25) == 0 {
 						name, cls = "", "empty"
-					} else if (op == "get" || op == "del" || op == "qry") && rng.Intn(4) == 0 {
+					} else if (op == "get" || op == "gmt" || op == "del" || op == "qry") && rng.Intn(4) == 0 {
 						// an existing entry, possibly reached through a detour
 						name, cls = pick(rng, g.staticNames()), "existing"
 						switch rng.Intn(4) {
@@ -491,7 +500,11 @@ func generate(r *hxlib.Run, emit func(hxlib.Case)) {
 			var ops []string
 			for i := 0; i < 8; i++ {
 				var name string
-				switch rng.Intn(5) {
+				switch rng.Intn(7) {
+				case 5:
+					name = "ok/a\x00b/" + pick(rng, insidePool) // stays inside the root: the OS refuses the name
+				case 6:
+					name = pick(rng, insidePool) + "/" + strings.Repeat("z", 255+rng.Intn(3)) + "/k" // inside the root, at and beyond NAME_MAX
 				case 0:
 					name = "a\x00/../../" + g.rootName + "-other/x"
 				case 1:
@@ -506,7 +519,7 @@ func generate(r *hxlib.Run, emit func(hxlib.Case)) {
 				}
 				switch comp {
 				case "fst":
-					ops = append(ops, pick(rng, []string{"put", "get", "del", "qry"})+" "+hx(name))
+					ops = append(ops, pick(rng, []string{"put", "get", "gmt", "del", "qry"})+" "+hx(name))
 				case "ds":
 					if rng.Intn(2) == 0 {
 						ops = append(ops, "enr r "+hx(name))
